@@ -224,7 +224,7 @@ fn main() {
     quiet_panics();
     let seed = env_seed();
     let thorough = env_tier_thorough();
-    let nfiles = if thorough { 96 } else { 24 };
+    let nfiles = if thorough { 192 } else { 24 };
     let files = corpus(seed, 0xC06, nfiles, false, "f");
     let mut stat: BTreeMap<String, u64> = BTreeMap::new();
     let mut bump = |k: &str, n: u64| *stat.entry(k.to_string()).or_insert(0) += n;
@@ -348,7 +348,7 @@ fn main() {
                 emit_case(f, kind, true, "whole", &run.ops, &run.obs, "extreme", &run.viol);
             }
             // ---- random histories
-            let nrand = if thorough { 40 } else { 8 };
+            let nrand = if thorough { 60 } else { 8 };
             for h in 0..nrand {
                 let seekable = !(h == 0);
                 let Some(mut run) = Run::new(f, kind, seekable) else { continue };
